@@ -270,6 +270,15 @@ def run(ctx, replay=None):
     if cfg.get('findings_from'):
         findings += [f for f in common.load_findings(None) if f['id'] in cfg['findings_from']]
     open_kinds = {f['clause_kind']: f for f in findings if f['status'] == 'open'}
+    # candidates of a kind that is not a listed finding first (a flood of known ones must not hide a new one), a few of each kind
+    per_kind = collections.Counter()
+    picked, rest = [], []
+    for c in cands:
+        ck_ = clause_kind(c[1])
+        per_kind[ck_] += 1
+        (picked if per_kind[ck_] <= (6 if ck_ not in open_kinds else 3) else rest).append(c)
+    picked.sort(key=lambda c: clause_kind(c[1]) in open_kinds)
+    cands = picked + rest
     confirmed = confirm_in_coq(ctx, [(p, k, w) for p, k, w, _ in cands[:40]])
     new_viol = 0
     known_hits = collections.Counter()
